@@ -323,21 +323,104 @@ pub fn drive(log: &mut Log) {
         let cap = (rng.range(0, 20) as usize, rng.range(0, 20) as usize);
         run(log, "rnd", alpha, &sc, case, k, w, cap, &calls);
     }
-    // (c) cell budget: no common symbol => no k-mer match => full band; 2300x2300 exceeds 5M cells
-    case += 1;
-    if log.mine(case) {
-        let sc = Scheme { table: mm_table(2, 1, -1), simple: Some((1, -1)), go: -5, ge: -1, clip: [MIN_SCORE; 4] };
-        let big_x = vec![b'A'; 2300];
-        let big_y = vec![b'C'; 2300];
-        let calls = vec![
-            (Entry::Custom, b"AACA".to_vec(), b"ACA".to_vec()),
-            (Entry::Custom, big_x.clone(), big_y.clone()),
-            (Entry::Global, big_x.clone(), big_y.clone()),
-            (Entry::CustomMatches(vec![]), big_x.clone(), big_y.clone()),
-            (Entry::Local, b"AACA".to_vec(), b"ACA".to_vec()),
+    // (c) cell budget: no common symbol => no k-mer match => full band; 2300x2300 exceeds 5M cells,
+    // 2200x2200 does not. Every entry point, on aligners with and without configured clip penalties,
+    // with small clip-sensitive calls before and after on the same object (a refused call must leave
+    // the object as it found it).
+    let budget_clips: [[i32; 4]; 3] = [[MIN_SCORE; 4], [-1, -1, -1, -1], [-3, MIN_SCORE, 0, -2]];
+    for (ci, clip) in budget_clips.iter().enumerate() {
+        for ei in 0..9usize {
+            case += 1;
+            if !log.mine(case) {
+                continue;
+            }
+            let entry = |ei: usize| -> Entry {
+                match ei {
+                    0 => Entry::Custom,
+                    1 => Entry::CustomPrehash,
+                    2 => Entry::CustomMatches(vec![]),
+                    3 => Entry::CustomExpanded(vec![], Some(1), true),
+                    4 => Entry::CustomPath(vec![], vec![]),
+                    5 => Entry::Global,
+                    6 => Entry::Semiglobal,
+                    7 => Entry::SemiglobalPrehash,
+                    _ => Entry::Local,
+                }
+            };
+            let sc = Scheme { table: mm_table(2, 1, -1), simple: Some((1, -1)), go: -5, ge: -1, clip: *clip };
+            let calls = vec![
+                (Entry::Custom, b"AACA".to_vec(), b"ACA".to_vec()),
+                (entry(ei), vec![b'A'; 2300], vec![b'C'; 2300]),
+                (Entry::Custom, b"AAC".to_vec(), b"CCAACCC".to_vec()),
+                (Entry::Custom, b"CCAACCC".to_vec(), b"AAC".to_vec()),
+                (entry(ei), vec![b'A'; 2200], vec![b'C'; 2200]),
+                (Entry::Custom, b"ACCCCAC".to_vec(), b"CAC".to_vec()),
+                (entry((ei + 4) % 9), vec![b'C'; 2300], vec![b'A'; 2300]),
+                (Entry::Custom, b"CA".to_vec(), b"AACAA".to_vec()),
+                (Entry::Local, b"AACA".to_vec(), b"ACA".to_vec()),
+            ];
+            log.oblige("over_cell_budget");
+            if ci > 0 {
+                log.oblige("over_cell_budget_then_custom_with_clips");
+            }
+            run(log, "budget", ac, &sc, (ci + ei) as u64, 8, 3, (10, 10), &calls);
+        }
+    }
+    // (c1) clip-dominated optima under sparse bands: custom scorings in which clipping one end of one
+    // sequence is cheap and the other end expensive, x short, y = G^a + one k-mer of x + G^b: the
+    // optimum clips / inserts almost everything and the traceback walks along the edge of the band.
+    // Every run first uses the same aligner for an unrelated semiglobal call (tables are reused).
+    {
+        let agt = b"ATG";
+        let xs = all_strings(b"AT", 3, false);
+        let asym: [[i32; 4]; 6] = [
+            [MIN_SCORE, MIN_SCORE, 0, -100],
+            [MIN_SCORE, MIN_SCORE, -100, 0],
+            [0, -100, MIN_SCORE, MIN_SCORE],
+            [-100, 0, MIN_SCORE, MIN_SCORE],
+            [MIN_SCORE, MIN_SCORE, 0, -2],
+            [-1, -30, 0, -30],
         ];
-        log.oblige("over_cell_budget");
-        run(log, "budget", ac, &sc, 0, 8, 3, (10, 10), &calls);
+        let mut combo = 0u64;
+        for clip in asym.iter() {
+            for &(go, ge) in [(-1, -1), (0, -1)].iter() {
+                for k in 1..=2usize {
+                    for w in 0..=2usize {
+                        for x in xs.iter().filter(|x| x.len() >= 2) {
+                            combo += 1;
+                            if !log.opts.thorough() && (combo.wrapping_mul(2654435761) >> 9) % 8 != 0 {
+                                continue;
+                            }
+                            case += 1;
+                            if !log.mine(case) {
+                                continue;
+                            }
+                            let sc = Scheme { table: mm_table(3, 1, -5), simple: Some((1, -5)), go, ge, clip: *clip };
+                            let mut calls = vec![(Entry::Semiglobal, b"ATGTATGT".to_vec(), b"TTATGTATGTTT".to_vec())];
+                            for a in 0..=3usize {
+                                for b in [0usize, 1, 2, 3, 5, 8, 10, 12] {
+                                    for s0 in 0..=(x.len() - k.min(x.len())) {
+                                        let mut y = vec![b'G'; a];
+                                        y.extend_from_slice(&x[s0..(s0 + k).min(x.len())]);
+                                        y.extend(vec![b'G'; b]);
+                                        calls.push((Entry::Custom, x.clone(), y.clone()));
+                                        if (a + b + s0) % 4 == 0 {
+                                            // and the mirror image (roles of x and y exchanged)
+                                            calls.push((Entry::Custom, y, x.clone()));
+                                        }
+                                    }
+                                }
+                                if a == 1 {
+                                    calls.push((Entry::Local, b"GGATGTAGG".to_vec(), b"TATGTAT".to_vec()));
+                                }
+                            }
+                            log.oblige("clip_dominated_sparse_band");
+                            run(log, "edge", agt, &sc, case, k, w, (4, 4), &calls);
+                        }
+                    }
+                }
+            }
+        }
     }
     // (c2) long y with a planted copy of x: the band is a thin stripe, most columns are empty;
     // matrix = (m+1)(n+1) far beyond the budget although the band is tiny
